@@ -65,12 +65,13 @@ def __get_token_for_ast(ast: Union[Token, ASTNode]) -> Token:  # pragma: no cove
     """
     if isinstance(ast, Token):
         return ast
+    # (an operator without arguments, such as the wildcard `.`, has no tokens)
     lhs_token = ast
     while isinstance(lhs_token, ASTNode):
-        lhs_token = lhs_token.args[0]  # type: ignore
+        lhs_token = lhs_token.args[0] if lhs_token.args else Token()  # type: ignore
     rhs_token = ast
     while isinstance(rhs_token, ASTNode):
-        rhs_token = rhs_token.args[-1]  # type: ignore
+        rhs_token = rhs_token.args[-1] if rhs_token.args else Token()  # type: ignore
     if (
         not lhs_token.source
         or lhs_token.source_start is None
